@@ -836,6 +836,15 @@ class C14(Prop):
             ws = ["prog"] + [w for k, w in enumerate(["-a", "-b", "-c", "-d5"]) if mask >> k & 1]
             ops += [W(*ws), "verify", "dump", "reuse"]
         cs.append({"name": "verify-sweep", "ops": ops, "sticky": len(rows) + 1})
+        # config-file line forms (documented format: option, argument if it takes one, `#` comments, quoted multi-word arguments)
+        ops = T + ["create"]
+        for txt in ["-a\n", " -a\n", "\t-a\n", "-a # c\n", "-a\t#c\n", "-n 3\n", "-n\t3\n", "-n  3\n", "-n 3 # c\n", "-n 3 4\n", "-n\n", "-n 3",
+                    '--multi "one two"\n', '--multi "one two" # c\n', '--multi "one two" x\n', "--multi one\n", "--multi one two\n", "#\n", "\n", "   \n",
+                    "x\n", "-a b\n", "--mu\n", "--mul\n", "-bc y\n", "--hix=0.1\n", "-c y\n-c z\n", "-b\n--no-b\n", "# c\n\n-a\n", "-x 0.5\n-n 9\n--hin -2\n",
+                    "--lown 5\n", "--lown 5\n-a\n-b\n", "--host h\n--host g\n", "-n 10\n", "-c A\n", "-x 1\n", "--hix 1e-3\n", "-a\n" * 2, "-a" + " " * 200 + "# long\n",
+                    "--multi " + "w" * 300 + "\n"]:
+            ops += ["cfg s=" + hx(txt), "verify", "dump", "cfg s=" + hx(txt), "dump", "reuse"]
+        cs.append({"name": "cfg-forms", "ops": ops, "sticky": n})
         # every documented range form at and around its bounds
         forms = [("%s<=%s<=%s", 1, 1), ("%s<%s<=%s", 0, 1), ("%s<=%s<%s", 1, 0), ("%s<%s<%s", 0, 0)]
         for ty, v, lo, hi, vals in ((1, "n", "-3", "7", ["-5", "-4", "-3", "-2", "0", "6", "7", "8", "9", "+7", "07", " 7", "7 "]),
